@@ -194,7 +194,7 @@ func RunStreamArgs(seed int64) (res Result) {
 		}
 	}()
 	for sl := 0; sl <= 70; sl++ {
-		for cl := 0; cl <= 20; cl++ {
+		for cl := 0; cl <= 70; cl++ { // 24 and 32 included: nonce sizes of other ChaCha variants
 			_, err := random.NewChacha20PRG(make([]byte, sl), make([]byte, cl))
 			if (err == nil) != (sl == 32 && cl <= 12) {
 				add(fmt.Sprintf("NewChacha20PRG(seed len %d, customizer len %d): err=%v", sl, cl, err))
